@@ -124,6 +124,13 @@ func (ec *evalCache) clear() {
 	ec.ownerToPods = make(map[string]map[string]struct{})
 }
 
+// purge drops all cached connection results; the pods bookkeeping (ownerToPods) is kept
+func (ec *evalCache) purge() {
+	if ec.cache != nil {
+		ec.cache.Purge()
+	}
+}
+
 func (ec *evalCache) addPod(p *k8s.Pod, podName string) {
 	podKey := getPodOwnerKey(p)
 
